@@ -519,7 +519,7 @@ def parseLeader(raw, eols=(CRLF, LF), kind="leader header line", headers=None):
                 raise HTTPException("Malformed header line '{0}'".format(line[:64]))
             if value[:1] == ' ':  # space after colon is optional
                 value = value[1:]
-            headers[key] = value
+            headers.add(key, value)  # repeated header field keeps all its values
 
         if len(headers) > MAX_HEADERS:
             raise HTTPException("Too many headers, more than {0}".format(MAX_HEADERS))
